@@ -3,6 +3,7 @@ package fix
 import (
 	"encoding/json"
 	"fmt"
+	"strings"
 	"sync"
 
 	"github.com/meshplus/bitxhub-core/governance"
@@ -82,7 +83,14 @@ func (w *World) VoteTx(admin int, proposal, verdict string) *pb.BxhTransaction {
 
 // Approve casts approving votes by admins 0,1,2 in one block.
 func (w *World) Approve(proposal string) *BlockResult {
-	return w.Must(w.Block(w.VoteTx(0, proposal, "approve"), w.VoteTx(1, proposal, "approve"), w.VoteTx(2, proposal, "approve")))
+	res := w.Block(w.VoteTx(0, proposal, "approve"), w.VoteTx(1, proposal, "approve"), w.VoteTx(2, proposal, "approve"))
+	for i, rc := range res.Receipts {
+		// with a strategy that concludes early, later votes are refused: fine
+		if !rc.IsSuccess() && (i == 0 || !strings.Contains(string(rc.Ret), "cannot be voted on")) {
+			panic(fmt.Errorf("fixture tx %d of block %d failed: %s", i, res.Block.BlockHeader.Number, rc.Ret))
+		}
+	}
+	return res
 }
 
 func (w *World) RegisterAppchainTx(k crypto.PrivateKey, chainID, rule string, trustRoot []byte, chainType string) *pb.BxhTransaction {
